@@ -222,6 +222,33 @@ def run(R, tier):
                 R.violation({'clause': 'differs-under-options', 'graded': True, 'null_generator': 0 in sig, 'blades': True},
                             {'signature': sig, 'options': 'graded=True', 'blade': nm, 'got': str(got)},
                             f'graded mode: alg.blades.{nm} in Algebra(signature={sig}, graded=True) is {got} (keys: coefficient), expected {{{k}: 1}}')
+    # ---- graded mode: grade selection / accessors of a multivector that no longer stores whole grades (x.filter() drops blades) ----
+    for it in range(6 if tier == 'quick' else 80):
+        d = rng.choice((2, 3, 3, 4))
+        sig = [rng.choice((1, -1, 0)) for _ in range(d)]
+        g2, g0 = algs.make_impl({'sig': sig, 'graded': True}), algs.make_impl({'sig': sig})
+        gs = tuple(sorted(rng.sample(range(d + 1), rng.randint(1, d + 1))))
+        ks = list(g2.indices_for_grades[gs])
+        vals = [rng.choice((0, 0, rng.randint(1, 9), -rng.randint(1, 9))) for _ in ks]
+        if not any(vals):
+            vals[0] = 3
+        xg, x0 = g2.multivector(keys=tuple(ks), values=list(vals)), g0.multivector(keys=tuple(ks), values=list(vals))
+        yg, y0 = xg.filter(), x0.filter()
+        R.count('graded-incomplete'); R.case(('graded-incomplete', tuple(sig), gs, tuple(vals)), True)
+        for g in range(d + 1):
+            try:
+                a_, b_ = yg.grade(g), y0.grade(g)
+                got = {int(k): v for k, v in zip(a_.keys(), a_.values()) if v != 0}
+                want = {int(k): v for k, v in zip(b_.keys(), b_.values()) if v != 0}
+                stray = [int(k) for k in a_.keys() if bin(int(k)).count('1') != g]
+            except Exception as e:  # noqa
+                got, want, stray = f'{type(e).__name__}: {e}'[:80], None, []
+            if got != want or stray:
+                R.violation({'clause': 'differs-under-options', 'graded': True, 'null_generator': 0 in sig, 'incomplete': True},
+                            {'signature': sig, 'options': 'graded=True', 'grades': list(gs), 'values': vals, 'grade': g},
+                            f'graded mode: x.filter().grade({g}) for x = {dict(zip(ks, vals))} in Algebra(signature={sig}, graded=True) is {got}'
+                            f'{" with keys of other grades " + str(stray) if stray else ""}; default mode gives {want}')
+                break
     # ---- graded mode against Model/Graded.v (completion of grades), evaluated in Coq ----
     pool = algs.AlgPool()
     cases = []
